@@ -711,7 +711,7 @@ func main() {
 		return
 	}
 
-	nh := c.Count(24, 300)
+	nh := c.Count(20, 300)
 	for i := 0; i < nh; i++ {
 		maxCommits := 6 + c.Rng.Intn(9)
 		h, G, S := genHist(c, maxCommits)
